@@ -39,7 +39,10 @@ func init() {
 		}
 		// Softmax / LogSoftmax
 		sshapes := [][]int{{2}, {2, 2}}
-		gridRows := [][]int{{8}, {9}, {17}}
+		gridRows := [][]int{{8}, {9}}
+		if th {
+			gridRows = append(gridRows, []int{17}) // (its Boolean queries take seconds each: past the quick tier's per-query limit on a loaded machine)
+		}
 		rshapes2 := [][]int{{2}, {3}, {2, 2}, {2, 3}, {3, 2}, {2, 2, 2}}
 		if th {
 			rshapes2 = append(rshapes2, []int{1, 2, 3}, []int{2, 1, 2, 2})
@@ -74,10 +77,10 @@ func init() {
 			"ArgMax: shapes of rank 1..3 (4 thorough) with extents <= 3, axis symbolic in [-rank-1, rank] or absent, keepdims 0/1/absent, element types float32/float64/int64/int32/uint8, every element symbolic (IEEE floats incl. +-Inf, ties); slices with NaN: only the index range is asserted",
 			"ReduceMax/ReduceMin: same shapes, 0..2 symbolic axes or no axes attribute, keepdims 0/1/absent, NaN-free elements",
 			"Softmax/LogSoftmax, IEEE float32 over ALL finite inputs, THOROUGH TIER ONLY and BEST EFFORT: shapes (2) and (2,2), default axis: results not NaN, Softmax in [0,1], LogSoftmax <= 0, under stated bracketing facts about exp/log. These floating-point queries sit at the edge of what z3/cvc5 finish (minutes to more than an hour each, depending on the machine's load); each case gets 6 minutes of escalated solver time, and a query that is not decided is listed under best_effort_undecided and printed as UNDECIDED - it is then not part of what the run covered (the grid cases below and the exact-arithmetic cases do not depend on it)",
-			"Softmax/LogSoftmax, IEEE on a saturating grid: every element in {-200, 0, 200} (float64 {-1000, 0, 1000}; each exponential of a difference is exactly 0, 1 or +Inf), rows of 8, 9, 17 along the default axis, shapes (2,3,2) axis 1, (3,2) axis -2, (2,5) axis 1: not NaN, Softmax in [0,1] and equal to 1/(number of maxima) at a maximum and 0 elsewhere, LogSoftmax <= 0; all 3^n grid points in one Boolean query per assertion (finite-domain lifting of the float terms)",
+			"Softmax/LogSoftmax, IEEE on a saturating grid: every element in {-200, 0, 200} (float64 {-1000, 0, 1000}; each exponential of a difference is exactly 0, 1 or +Inf), rows of 8, 9 (thorough: and 17) along the default axis, shapes (2,3,2) axis 1, (3,2) axis -2, (2,5) axis 1: not NaN, Softmax in [0,1] and equal to 1/(number of maxima) at a maximum and 0 elsewhere, LogSoftmax <= 0; all 3^n grid points in one Boolean query per assertion (finite-domain lifting of the float terms)",
 			"Softmax/LogSoftmax, exact arithmetic: shapes up to (2,2,2): outputs equal exp(x-m)/sum resp. (x-m)-log(sum) along the requested axis only, each Softmax slice sums to 1 (exp, log uninterpreted with exp > 0)",
 		}
-		p.Outside = []string{"IEEE behaviour of Softmax/LogSoftmax for rows of more than 3 elements on inputs OFF the saturating grid (the solvers do not finish the general floating-point query; over the reals rows of any small length are covered, and on the grid {-200,0,200} rows of 8, 9 and 17 are decided in IEEE arithmetic)", "ordering of NaN in ReduceMax/ReduceMin and ArgMax", "repeated reduction axes", "accuracy of exp/log", "extents > 3", "LogSoftmax finiteness for inputs whose difference overflows float32 (no implementation can represent the result)"}
+		p.Outside = []string{"IEEE behaviour of Softmax/LogSoftmax for rows of more than 3 elements on inputs OFF the saturating grid (the solvers do not finish the general floating-point query; over the reals rows of any small length are covered, and on the grid {-200,0,200} rows of 8, 9 and (thorough) 17 are decided in IEEE arithmetic)", "ordering of NaN in ReduceMax/ReduceMin and ArgMax", "repeated reduction axes", "accuracy of exp/log", "extents > 3", "LogSoftmax finiteness for inputs whose difference overflows float32 (no implementation can represent the result)"}
 		p.Explanation = "ArgMax/ReduceMax/ReduceMin/Softmax/LogSoftmax Apply paths executed symbolically; gorgonia's Argmax, Max/Min and the two softmax kernels are line-by-line ports (including their quirks) validated against native runs"
 		return p
 	}
